@@ -104,6 +104,14 @@ CLAIMS = {
         "Tied by comparing the virtual return time of every command and every probe sent on random schedules. F16 (orphaned load balancer "
         "probed forever) is a recorded finding.",
    note=TB + "M4 is an interpreter of schedules; its atomic steps follow the code incl. its known defects. Partial: the theorems are about the model's step functions (local), whole-schedule invariants are carried by kernel-checked witnesses/tests and the correspondence run; probe I/O kinds are abstracted." + " Real elapsed time is outside the model."),
+
+'C13': dict(engine='rewrite+buffer', technique='Lean 4 proof (round-trip of the URL model: parse, join, strip, re-escape) + differential correspondence run through the real ReverseProxy/Transport',
+   text="Theorems: for every raw path that is a valid encoding and every query, the request-URI forwarded without stripping is the client's, "
+        "byte for byte (C13_path_nostrip); with stripping, if the client spelled the prefix literally, what follows the prefix is forwarded "
+        "byte for byte, or '/' (C13_path_strip, needs the F7 repair); the raw query and the presence of '?' are copied verbatim; with header "
+        "forwarding off X-Forwarded-For/-Host/-Proto describe the connection and client values are discarded; with it on the client chain "
+        "is kept and the address appended. Tied by generated targets/headers/bodies through the full handler chain.",
+   note=TB + "Modelled stdlib: net/url (escape, unescape, validEncoded, setPath, EscapedPath, RequestURI, ParseRequestURI), ReverseProxy hop-by-hop and forwarding header handling, Transport's User-Agent rule."),
 }
 
 NA_REASON = {}
